@@ -5,6 +5,7 @@ import (
 	_ "verifsim/worlds/conn"
 	_ "verifsim/worlds/kos"
 	_ "verifsim/worlds/mesh"
+	_ "verifsim/worlds/mulgadgets"
 	_ "verifsim/worlds/otpair"
 	_ "verifsim/worlds/twopc"
 )
